@@ -16,7 +16,9 @@
                                                 "\r\n" and "\r" arrive as "\n")
                                         false = files are opened with newline=''   (no translation)
      w_guard                            true  = os.makedirs is skipped when dirname(path) is ''
-   The last two are read from the source by the harness (tie).  *)
+     escape / w_escape                  glob.escape; true = the directory part of the include pattern is
+                                        escaped before it is joined with the Include filename
+   The three flags are read from the source by the harness (tie).  *)
 From AB Require Import Prelude.
 
 Definition path := str.
@@ -82,8 +84,10 @@ Record world := mkworld {
   join : path -> path -> path;
   ppath : path -> path;
   canon : path -> path;
+  escape : path -> path;
   w_translate : bool;
-  w_guard : bool
+  w_guard : bool;
+  w_escape : bool
 }.
 
 Section WithWorld.
@@ -119,7 +123,8 @@ Definition fs_makedirs (fs : fsys) (d : path) : option fsys :=
 
 (* ---- _get_include_paths ---------------------------------------------------------------------
    for directive in file.raw_directives: (Include only)
-       matches = glob.glob(os.path.join(os.path.dirname(path), directive.filename), recursive=True)
+       matches = glob.glob(os.path.join([glob.escape](os.path.dirname(path)), directive.filename),
+                           recursive=True)
        if not matches: raise ValueError
        for match in matches: yield os.path.normpath(match)                                        *)
 Fixpoint include_paths_of (dir : path) (names : list str) : eres (list path) :=
@@ -136,7 +141,7 @@ Fixpoint include_paths_of (dir : path) (names : list str) : eres (list path) :=
     end
   end.
 Definition include_paths (cur : path) (m : model W) : eres (list path) :=
-  include_paths_of (dirname W cur) (includes W m).
+  include_paths_of (if w_escape W then escape W (dirname W cur) else dirname W cur) (includes W m).
 
 (* ---- the read phase of edit_file_recursive ---------------------------------------------------
    while queue:
